@@ -102,7 +102,8 @@ func (r *Rule) Init() error {
 		r.irregularMap[item.Word] = item.Replacement
 	}
 
-	reString = fmt.Sprintf(`(?i)(.*)\b((?:%s))$`, strings.Join(vIrregulars, `|`))
+	// (?s) the prefix may contain line breaks
+	reString = fmt.Sprintf(`(?is)(.*)\b((?:%s))$`, strings.Join(vIrregulars, `|`))
 	r.compiledIrregular = regexp.MustCompile(reString)
 
 	r.compiledRules = make([]*CompiledRule, len(r.Rules))
